@@ -20,7 +20,10 @@ import (
 // property while the 51 tests pass) and the reversal of each `fix:` commit
 // recorded for the property in known_findings.txt.  A miss is a weakness of the
 // checker, not a violation of the property: it is recorded, never hidden, and
-// does not change the exit status.
+// does not change the exit status.  benign/*.diff are behaviour-preserving
+// variants (renamed locals, comments, a regenerated refactor, a new correct
+// helper): the check must stay silent on them; an alarm there is recorded as a
+// false alarm of the checker.
 
 type Variant struct {
 	Name     string   `json:"variant"`
@@ -67,6 +70,13 @@ func RunSelftests(prop, repoRoot, verifDir string) []Variant {
 		if err == nil {
 			add("seeded", "seeded/"+filepath.Base(d), b, false)
 		}
+	}
+	// behaviour-preserving variants: the check must stay silent on them
+	bfiles, _ := filepath.Glob(filepath.Join(verifDir, "benign", "*.diff"))
+	sort.Strings(bfiles)
+	for _, f := range bfiles {
+		b, _ := os.ReadFile(f)
+		add("benign", "benign/"+filepath.Base(f), b, false)
 	}
 	// reversals of fix commits
 	if kf, err := os.Open(filepath.Join(verifDir, "known_findings.txt")); err == nil {
